@@ -4,7 +4,7 @@ META = {}
 
 META["C06"] = {
     "LEVEL": "exploration",
-    "TIERS": {"quick": 1500, "thorough": 40000},
+    "TIERS": {"quick": 1500, "thorough": 15000},
     "WALLCAP": {"quick": 300, "thorough": 3000},
     "RULE": (
         "One evaluation = one seeded scenario (driver, local-error profile, checkpoint placement relative to the "
@@ -56,7 +56,7 @@ PENDING = {pid: "check under construction in this session (see DESIGN.md §3); n
 
 META["C02"] = {
     "LEVEL": "exploration",
-    "TIERS": {"quick": 240, "thorough": 8000},
+    "TIERS": {"quick": 240, "thorough": 2400},
     "WALLCAP": {"quick": 400, "thorough": 5400},
     "RULE": ("One evaluation = one seeded (problem, configuration, step schedule): the real solver's init and every step "
              "(rejected attempts of forced adaptive histories included) is compared with the 50-digit reference EKF step "
@@ -82,7 +82,7 @@ META["C02"] = {
 
 META["C03"] = {
     "LEVEL": "exploration",
-    "TIERS": {"quick": 160, "thorough": 6000},
+    "TIERS": {"quick": 160, "thorough": 1600},
     "WALLCAP": {"quick": 420, "thorough": 5400},
     "RULE": ("One evaluation = one seeded (problem, configuration, smoother habitat, forced or natural step history with "
              "rejections, checkpoint placement relative to the step ends, way the last step ends) run through the real "
@@ -110,7 +110,7 @@ META["C03"] = {
 
 META["C05"] = {
     "LEVEL": "exploration",
-    "TIERS": {"quick": 96, "thorough": 4000},
+    "TIERS": {"quick": 96, "thorough": 960},
     "WALLCAP": {"quick": 420, "thorough": 5400},
     "RULE": ("One evaluation = one seeded (problem, configuration, forced or natural step history with injected spurious "
              "rejections / proposal jitter): three to five real solves with checkpoint sets A={t0,T}, A' and B (A<A'<B, B placed "
@@ -138,7 +138,7 @@ META["C05"] = {
 
 META["C04"] = {
     "LEVEL": "exploration",
-    "TIERS": {"quick": 128, "thorough": 5000},
+    "TIERS": {"quick": 128, "thorough": 1280},
     "WALLCAP": {"quick": 420, "thorough": 5400},
     "RULE": ("One evaluation = one seeded scenario of two classes. conserve: a forced accept/reject history with checkpoints on "
              "the real solver; the reported scale is recomputed from the whitened residuals the reference model obtains from the "
@@ -164,7 +164,7 @@ META["C04"] = {
 
 META["C14"] = {
     "LEVEL": "exploration",
-    "TIERS": {"quick": 112, "thorough": 5000},
+    "TIERS": {"quick": 112, "thorough": 1120},
     "WALLCAP": {"quick": 420, "thorough": 5400},
     "RULE": ("One evaluation = one seeded problem and history processed in lock step by replicas: dense/isotropic/block-diagonal "
              "(TS0, default scales), dense vs isotropic on natural adaptive runs (attempt histories must coincide, margin rule), "
@@ -186,7 +186,7 @@ META["C14"] = {
 
 META["C13"] = {
     "LEVEL": "exploration",
-    "TIERS": {"quick": 128, "thorough": 5000},
+    "TIERS": {"quick": 128, "thorough": 1280},
     "WALLCAP": {"quick": 420, "thorough": 5400},
     "RULE": ("One evaluation = one seeded smoother posterior (fixed-interval on fixed grids or save-every-step runs, fixed-point with "
              "checkpoints; forced histories with rejections) or a prior sequence on a grid, sampled with a scripted random source: "
@@ -211,7 +211,7 @@ META["C13"] = {
 
 META["C17"] = {
     "LEVEL": "exploration",
-    "TIERS": {"quick": 320, "thorough": 12000},
+    "TIERS": {"quick": 320, "thorough": 3200},
     "WALLCAP": {"quick": 300, "thorough": 3000},
     "RULE": ("One evaluation = one seeded polynomial map (n_in,d)->(n_out,d) (non-square shapes included), evaluation point, AD "
              "mode and sequence of 2-4 trace/diagonal calls threaded with the returned state. The probe source is scripted with "
@@ -232,7 +232,7 @@ META["C17"] = {
 
 META["C12"] = {
     "LEVEL": "exploration",
-    "TIERS": {"quick": 160, "thorough": 6000},
+    "TIERS": {"quick": 160, "thorough": 1600},
     "WALLCAP": {"quick": 420, "thorough": 5400},
     "RULE": ("One evaluation = one seeded smoother posterior from a simulated history (fixed grid / every-step fixed-interval, "
              "fixed-point with checkpoints incl. coinciding ones, rejections in between), a dataset near the solution, noise "
@@ -254,7 +254,7 @@ META["C12"] = {
 
 META["C07"] = {
     "LEVEL": "exploration",
-    "TIERS": {"quick": 96, "thorough": 5000},
+    "TIERS": {"quick": 96, "thorough": 960},
     "WALLCAP": {"quick": 420, "thorough": 5400},
     "RULE": ("One evaluation = one seeded natural adaptive run (problem, configuration, estimator kind / norm / re-linearisation / "
              "per-unit-step / derivative index, tolerances atol != rtol, checkpoints, injected spurious rejections and proposal "
@@ -276,7 +276,7 @@ META["C07"] = {
 
 META["C01"] = {
     "LEVEL": "exploration",
-    "TIERS": {"quick": 192, "thorough": 8000},
+    "TIERS": {"quick": 192, "thorough": 1920},
     "WALLCAP": {"quick": 420, "thorough": 5400},
     "RULE": ("One evaluation = one seeded scenario. adaptive: a natural run of the real solver/estimator/controller/loop on an "
              "IVP with known solution (12 families incl. non-autonomous, second-order, |u| far from 1, 30-digit references for "
@@ -300,7 +300,7 @@ META["C01"] = {
 
 META["C15"] = {
     "LEVEL": "exploration",
-    "TIERS": {"quick": 48, "thorough": 2500},
+    "TIERS": {"quick": 48, "thorough": 480},
     "WALLCAP": {"quick": 480, "thorough": 5400},
     "RULE": ("One evaluation = one seeded scenario. schedule: the same solve executed Python-stepped (oracle), lax-eager, jitted and "
              "inside a vmap batch of 2-5 members whose position, tolerances (1e-9..1e-2), final times and initial values the seed "
@@ -321,7 +321,7 @@ META["C15"] = {
 
 META["C19"] = {
     "LEVEL": "exploration",
-    "TIERS": {"quick": 1600, "thorough": 60000},
+    "TIERS": {"quick": 1600, "thorough": 16000},
     "WALLCAP": {"quick": 300, "thorough": 3000},
     "RULE": ("One evaluation = one seeded constrained least-squares problem (affine or mildly nonlinear polynomial constraint with "
              "1..D-1 rows, D<=10, random mean, Cholesky factor incl. zero columns / low rank, tolerance 1e-4..1e-12 or unreachable, "
@@ -340,7 +340,7 @@ META["C19"] = {
 
 META["C18"] = {
     "LEVEL": "exploration",
-    "TIERS": {"quick": 320, "thorough": 12000},
+    "TIERS": {"quick": 320, "thorough": 3200},
     "WALLCAP": {"quick": 360, "thorough": 4000},
     "RULE": ("One evaluation = one seeded initial state (generic, exactly zero, 1e-300, up to 1e300, mixed scales 1e-8..1e8, on an "
              "equilibrium, zero state and field), polynomial vector field, tolerances 1e-12..1, rate 1..12, array/dict/tuple "
@@ -382,7 +382,7 @@ META["C20"] = {
 
 META["C08"] = {
     "LEVEL": "exploration",
-    "TIERS": {"quick": 160, "thorough": 6000},
+    "TIERS": {"quick": 160, "thorough": 1600},
     "WALLCAP": {"quick": 420, "thorough": 5400},
     "RULE": ("One evaluation = one seeded simulated workload (forced history with rejections and checkpoints through the real loop "
              "or a fixed grid, any strategy / factorisation / calibration / prior, then sampling, both losses, off-grid marginals, "
@@ -407,7 +407,7 @@ META["C08"] = {
 
 META["C09"] = {
     "LEVEL": "exploration",
-    "TIERS": {"quick": 160, "thorough": 6000},
+    "TIERS": {"quick": 160, "thorough": 1600},
     "WALLCAP": {"quick": 420, "thorough": 5400},
     "RULE": ("One evaluation = one seeded simulated run (forced history with rejections, checkpoints, dynamic/MLE/no calibration, "
              "IWP / Ornstein-Uhlenbeck / Matern prior, three factorisations for IWP) during which every executed "
